@@ -89,7 +89,7 @@ pub fn gen(ctx: &mut Ctx) -> Vec<String> {
     }
     ctx.add("exhaustive_histories", out.len() as u64);
     // random histories, several buffer sizes (so that flushes to batch files interleave), immediate durability
-    let n = ctx.budget(2000, 8000);
+    let n = ctx.budget(700, 8000);
     for i in 0..n {
         let b = [10000, 1, 2, 3][i % 4];
         let single = i % 5 == 4;
